@@ -63,6 +63,7 @@ package scorch
 // ---- the reader: cursor in global doc numbers (ghost) ----
 //@ ghostfield IndexSnapshotTermFieldReader.gstarted bool
 //@ ghostfield IndexSnapshotTermFieldReader.glast uint64
+//@ ghostfield IndexSnapshotTermFieldReader.gseg int
 // position of an iterator in its reader (makes the iterators of one reader pairwise distinct)
 //@ uf itPos(it segment.PostingsIterator) int
 
@@ -78,7 +79,8 @@ package scorch
 //@     implies(i.segmentOffset < len(i.iterators) && i.iterators[i.segmentOffset].pstarted && !i.iterators[i.segmentOffset].pdone, i.glast == i.snapshot.offsets[i.segmentOffset] + i.iterators[i.segmentOffset].plast) && \
 //@     implies(i.gstarted && i.segmentOffset < len(i.iterators) && !i.iterators[i.segmentOffset].pstarted, i.glast < i.snapshot.offsets[i.segmentOffset]) && \
 //@     implies(i.gstarted && i.segmentOffset + 1 < len(i.iterators), i.glast < i.snapshot.offsets[i.segmentOffset+1]) && \
-//@     implies(i.currPosting != nil, i.gstarted && idNum(i.currID) <= i.glast)
+//@     implies(i.currPosting != nil, i.gstarted && idNum(i.currID) <= i.glast) && \
+//@     implies(i.gstarted, 0 <= i.gseg && i.gseg < len(i.iterators) && i.gseg <= i.segmentOffset && i.iterators[i.gseg].pstarted && i.snapshot.offsets[i.gseg] <= i.glast && i.glast < i.snapshot.offsets[i.gseg] + segCount(i.iterators[i.gseg]))
 
 // With frequencies, norms and term vectors switched off the conversion leaves rv alone (the id
 // is set by the caller). The three flags are requirements of every reader contract below: the
@@ -97,15 +99,16 @@ package scorch
 //@   mode int
 //@   prune
 //@   requires i != nil && tfrShape(i) && tfrCursor(i) && !i.updateBytesRead && !i.includeFreq && !i.includeNorm && !i.includeTermVectors
-//@   modifies i.segmentOffset, i.currID, i.currPosting, i.gstarted, i.glast, segment.PostingsIterator.pstarted, segment.PostingsIterator.plast, segment.PostingsIterator.pdone, fields(index.TermFieldDoc), mem(byte)
+//@   modifies i.segmentOffset, i.currID, i.currPosting, i.gstarted, i.glast, i.gseg, segment.PostingsIterator.pstarted, segment.PostingsIterator.plast, segment.PostingsIterator.pdone, fields(index.TermFieldDoc), mem(byte)
 //@   at return: ghost i.gstarted = i.gstarted || (result1 == nil && result0 != nil)
 //@   at return: ghost i.glast = ite(result1 == nil && result0 != nil, idNum(result0.ID), i.glast)
+//@   at return: ghost i.gseg = ite(result1 == nil && result0 != nil, i.segmentOffset, i.gseg)
 //@   ensures implies(result1 == nil, tfrShape(i) && tfrCursor(i))
-//@   ensures implies(result1 == nil && result0 != nil, i.gstarted && i.glast == idNum(result0.ID)) && implies(result0 == nil, i.gstarted == old(i.gstarted) && i.glast == old(i.glast))
+//@   ensures implies(result1 == nil && result0 != nil, i.gstarted && i.glast == idNum(result0.ID)) && implies(result0 == nil, i.gstarted == old(i.gstarted) && i.glast == old(i.glast) && i.gseg == old(i.gseg))
 //@   ensures i.snapshot == old(i.snapshot) && i.iterators == old(i.iterators)
 //@   ensures implies(result1 == nil && result0 != nil, implies(old(i.gstarted), idNum(result0.ID) > old(i.glast)) && idNum(result0.ID) >= i.snapshot.offsets[old(i.segmentOffset)] && i.currPosting != nil && i.currID == result0.ID)
 //@   ensures implies(result1 == nil && result0 != nil && old(i.segmentOffset) < len(i.iterators) && old(i.iterators[i.segmentOffset].pdone), old(i.segmentOffset) + 1 < len(i.iterators) && idNum(result0.ID) >= i.snapshot.offsets[old(i.segmentOffset)+1])
-//@   loop 0: invariant tfrShape(i) && tfrCursor(i) && i.segmentOffset >= old(i.segmentOffset) && i.gstarted == old(i.gstarted) && i.glast == old(i.glast) && rv != nil && i.snapshot == old(i.snapshot) && i.iterators == old(i.iterators)
+//@   loop 0: invariant tfrShape(i) && tfrCursor(i) && i.segmentOffset >= old(i.segmentOffset) && i.gstarted == old(i.gstarted) && i.glast == old(i.glast) && i.gseg == old(i.gseg) && rv != nil && i.snapshot == old(i.snapshot) && i.iterators == old(i.iterators)
 //@   loop 0: invariant !i.updateBytesRead && !i.includeFreq && !i.includeNorm && !i.includeTermVectors
 //@   loop 0: invariant implies(old(i.segmentOffset) < len(i.iterators) && old(i.iterators[i.segmentOffset].pdone) && i.segmentOffset == old(i.segmentOffset), i.iterators[i.segmentOffset].pdone)
 //@   loop 0: invariant implies(i.segmentOffset < len(i.iterators), i.snapshot.offsets[i.segmentOffset] >= i.snapshot.offsets[old(i.segmentOffset)])
@@ -123,9 +126,10 @@ package scorch
 //@   reveal offsetsOK
 //@   requires i != nil && tfrShape(i) && tfrCursor(i) && !i.updateBytesRead && !i.includeFreq && !i.includeNorm && !i.includeTermVectors
 //@   requires implies(i.gstarted, idNum(ID) > i.glast)
-//@   modifies i.segmentOffset, i.currID, i.currPosting, i.gstarted, i.glast, segment.PostingsIterator.pstarted, segment.PostingsIterator.plast, segment.PostingsIterator.pdone, fields(index.TermFieldDoc), mem(byte)
+//@   modifies i.segmentOffset, i.currID, i.currPosting, i.gstarted, i.glast, i.gseg, segment.PostingsIterator.pstarted, segment.PostingsIterator.plast, segment.PostingsIterator.pdone, fields(index.TermFieldDoc), mem(byte)
 //@   at return: ghost i.gstarted = i.gstarted || (result1 == nil && result0 != nil)
 //@   at return: ghost i.glast = ite(result1 == nil && result0 != nil, idNum(result0.ID), i.glast)
+//@   at return: ghost i.gseg = ite(result1 == nil && result0 != nil, i.segmentOffset, i.gseg)
 //@   ensures implies(result1 == nil, tfrShape(i) && tfrCursor(i))
-//@   ensures implies(result1 == nil && result0 != nil, i.gstarted && i.glast == idNum(result0.ID)) && implies(result0 == nil, i.gstarted == old(i.gstarted) && i.glast == old(i.glast))
+//@   ensures implies(result1 == nil && result0 != nil, i.gstarted && i.glast == idNum(result0.ID)) && implies(result0 == nil, i.gstarted == old(i.gstarted) && i.glast == old(i.glast) && i.gseg == old(i.gseg))
 //@   ensures implies(result1 == nil && result0 != nil, idNum(result0.ID) >= idNum(ID) && implies(old(i.gstarted), idNum(result0.ID) > old(i.glast)))
